@@ -27,7 +27,7 @@ BATCH = 400
 ENUM_BATCH = 60
 ENUM_SHARE = 0.4
 ENUM_RULE = (
-    "755 fixed cases run before the seeded search: {301,302,303,307,308} x {GET,HEAD,DELETE; POST,PUT,PATCH x body "
+    "790 fixed cases run before the seeded search: {301,302,303,307,308} x {GET,HEAD,DELETE; POST,PUT,PATCH x body "
     "none/bytes/form/one-shot generator/file/unseekable file} x redirect target {same origin, other port, other "
     "scheme, subdomain, other host} with every caller secret and a four-cookie jar; other home origins; URL "
     "credentials and credentials in the Location; A->X->A and A->X->X->A for every X and status; chains of "
@@ -35,7 +35,8 @@ ENUM_RULE = (
     "spelling; one redirect A->X with URL credentials / Location credentials / session default headers / request "
     "headers followed by later calls on the same session to every origin of the run; for every ordered pair "
     "of origins X != Y the chain X -> X -> Y -> X whose first response sets a host-only, a Domain=, a Secure and a "
-    "path-scoped cookie.  Not exhaustive of the property's input space."
+    "path-scoped cookie; for every origin X the chain X -> X -> X whose second response sets a cookie of the first "
+    "response (or of the preload) again, same value, with Secure added / removed or another lifetime.  Not exhaustive of the property's input space."
 )
 TECHNIQUE = ("deterministic simulation: real ClientSession on a virtual-time loop against scripted in-memory origin "
              "servers; per-request oracle from an executable statement of the documented redirect rules; seeded "
@@ -68,6 +69,8 @@ RULE = (
     "without / with empty / with a headers= argument, optionally with URL credentials and one redirect of their "
     "own (half of these scenarios give the caller's headers as session defaults); every request of a later call "
     "is judged as a chain of its own and against everything supplied for another origin in an earlier call.  "
+    "In 10 % one hop sets again, with the same value and other attributes (Secure, Max-Age), a cookie that an "
+    "earlier hop at that host set or the jar was preloaded with.  "
     "Non-trivial: at least one redirect was followed, the call carried a caller secret or jar cookie, and an "
     "origin change, a method/body transformation of a body-bearing request, a refusal or the redirect limit "
     "occurred.  Distinct = interleaving signature."
@@ -115,6 +118,7 @@ TOKEN_KIND = {T_AUTH: "authorization", T_HC[0]: "cookie_header", T_HC[1]: "cooki
               T_RC: "request_cookies", T_PW: "url_credentials"}
 CALLER_COOKIE_NAMES = ("hc1", "hc2", "rc1")
 FOLLOWUP_SHARE = 0.12
+REISSUE_SHARE = 0.10
 
 
 def _origin_t(name):
@@ -333,7 +337,43 @@ def gen(rng, tier, index):
     # the session is used again after the call (a history of calls on one ClientSession)
     if rng.random() < FOLLOWUP_SHARE:
         _mk_followups(rng, scn)
+    # ... and after that: a hop issues again, with other attributes, a cookie the jar already holds
+    if rng.random() < REISSUE_SHARE:
+        _mk_reissue(rng, scn)
     return scn
+
+
+def _ri_line(secure, max_age):
+    return "ri=RV; Path=/" + ("; Secure" if secure else "") + ("" if max_age is None else f"; Max-Age={max_age}")
+
+
+def _mk_reissue(rng, scn):
+    """One hop's response sets a cookie the jar already holds - same name, value, domain and path, put there
+    by an earlier hop at the same host or preloaded for that host - with other attributes (Secure added or
+    removed, a lifetime added, changed, removed or ended).  RFC 6265 5.3 step 11: the new cookie replaces the
+    old one, attributes included, so the following hops are selected for by the new attributes."""
+    hops = scn["hops"]
+    n = len(hops)
+    k = rng.randrange(n) if rng.random() < 0.2 else rng.randrange(max(1, n - 1))
+    s, host, _, _ = ORIGINS[hops[k]["o"]]
+    earlier = [j for j in range(k) if ORIGINS[hops[j]["o"]][1] == host]
+    secure = rng.random() < 0.3
+    max_age = rng.choice([None, None, 3600])
+    src = rng.choice(earlier + [None]) if earlier else None
+    if src is None:
+        max_age = None  # a preloaded cookie is a session cookie
+    change = rng.choice(["secure", "secure", "secure", "max_age", "both"])
+    secure2 = (not secure) if change != "max_age" else secure
+    max_age2 = max_age
+    if change != "secure":
+        max_age2 = rng.choice([3600, 0] if max_age is None else [None, 0, 7200])
+    base, again = _ri_line(secure, max_age), _ri_line(secure2, max_age2)
+    if src is None:
+        scn["jar"]["pre"].append({"name": "ri", "value": "RV", "url": f"{s}://{host}/", "path": "/", "secure": secure})
+    else:
+        hops[src]["setc"].append(base)
+    hops[k]["setc"].append(again)
+    scn["reissue"] = {"hop": k, "src": src, "base": base, "again": again}
 
 
 def _fu_cred(i):
@@ -514,9 +554,47 @@ def enumerate_cases(tier, seed):
                          "loc_str": None})
             s["origins"] = [x, y]
             yield s
+    # 9. a cookie issued again with other attributes: X -> X -> X, the first response (or the preload) holds the
+    #    cookie, the second sets it again with the same value, the third request is selected for by the new ones
+    for x in ("A", "AP", "AS", "SUB", "B"):
+        for (sec, age), (sec2, age2) in (((False, None), (True, None)), ((True, None), (False, None)),
+                                         ((False, None), (False, 0)), ((False, 3600), (True, 7200))):
+            for pre in (False, True):
+                if pre and age is not None:
+                    continue
+                s = _simple(x, x, 302, "GET", "none", loc_kind="rel", secrets=False, jar=False)
+                hops = s["hops"]
+                hops[0]["setc"] = []
+                hops[1].update(status=307, loc="rel", loc_str="/h2", setc=[_ri_line(sec2, age2)])
+                hops.append({"o": x, "target": "/h2", "setc": [], "rbody": 2, "framing": "cl", "status": 200, "loc": None,
+                             "loc_str": None})
+                if pre:
+                    xs, xh, _, _ = ORIGINS[x]
+                    s["jar"]["pre"].append({"name": "ri", "value": "RV", "url": f"{xs}://{xh}/", "path": "/", "secure": sec})
+                else:
+                    hops[0]["setc"].append(_ri_line(sec, age))
+                s["reissue"] = {"hop": 1, "src": None if pre else 0, "base": _ri_line(sec, age), "again": _ri_line(sec2, age2)}
+                s["origins"] = [x]
+                yield s
 
 
 def shrink(scn):
+    ri = scn.get("reissue")
+    if ri:
+        # without the feature: neither the first issue nor the second
+        lines = (ri["base"], ri["again"])
+        yield dict({k: v for k, v in scn.items() if k != "reissue"},
+                   hops=[dict(h, setc=[x for x in h["setc"] if x not in lines]) for h in scn["hops"]],
+                   jar=dict(scn["jar"], pre=[c for c in scn["jar"]["pre"] if c["name"] != "ri"]))
+        # the first issue preloaded instead of set by an earlier hop
+        if ri["src"] is not None and ri["hop"] < len(scn["hops"]) and "Max-Age" not in ri["base"]:
+            s, host, _, _ = ORIGINS[scn["hops"][ri["hop"]]["o"]]
+            nh = [dict(h) for h in scn["hops"]]
+            if ri["src"] < len(nh):
+                nh[ri["src"]]["setc"] = [x for x in nh[ri["src"]]["setc"] if x != ri["base"]]
+            yield dict(scn, hops=nh, reissue=dict(ri, src=None),
+                       jar=dict(scn["jar"], pre=scn["jar"]["pre"] + [
+                           {"name": "ri", "value": "RV", "url": f"{s}://{host}/", "path": "/", "secure": "Secure" in ri["base"]}]))
     fus = scn.get("followups") or []
     if fus:
         yield {k: v for k, v in scn.items() if k != "followups"}
@@ -1561,6 +1639,7 @@ def run(scn, ch, log=False):
             "later_call_with_session_defaults_after_origin_change": int(bool(fu_res) and via_session and changes > 0
                                                                         and any(headers)),
             "later_call_skipped_first_call_blocked_or_leaked": int(bool(fus) and not fu_res),
+            "cookie_reissued_with_other_attributes_then_hop": int(bool(scn.get("reissue")) and len(trav) > scn["reissue"]["hop"] + 1),
         }
         for s in sorted({hops[j]["status"] for j in range(max(0, len(trav) - 1))}):
             probes[f"followed_{s}"] = 1
